@@ -18,7 +18,7 @@ RULES = {
 }
 CONTROL_REV = '078b142'  # thorough tier: the rules must still report the defects found (and since fixed) on the original tree
 CONTROLS = [('C13.R1', 'DfsEdge::new#seed'), ('C13.R3', 'Bfs::next#n_remaining'), ('C13.R4', 'DfsPre::skip_subtree#reset'), ('C13.R4', 'DfsEdge::skip_subtree#reset'), ('C13.R4', 'Bfs::skip_subtree#reset'), ('C13.R5', 'DfsPre::skip_subtree#size_lb'), ('C13.R5', 'DfsEdge::new#size_lb'), ('C13.R5', '<PolyhedraIter_as_Iterator>::size_hint')]
-FLOORS = {'C13.R1': 3, 'C13.R2': 3, 'C13.R3': 2, 'C13.R4': 6, 'C13.R5': 6, 'C13.R6': 8, 'C13.R7': 9, 'C13.R8': 3, 'C13.R9': 1}
+FLOORS = {'C13.R1': 3, 'C13.R2': 3, 'C13.R3': 2, 'C13.R4': 9, 'C13.R5': 6, 'C13.R6': 10, 'C13.R7': 9, 'C13.R8': 3, 'C13.R9': 1}
 EXPLANATION = 'Sibling agreement between the three traversals and pairing/ordering rules on their bookkeeping.'
 DOES_NOT_DECIDE = 'exact visiting sequences as a whole (decided through their local rules only), depth()/depth_stats aggregation, numeric tightness of size_hint'
 LIFO_POP = {'Vec::pop'}
@@ -436,6 +436,18 @@ def r5_skip(ctx, ty, m):
     rets = [e for _, e in R.return_expr()]
     site = '%s::new#size_lb' % ty
     edge = 'Edge' in ty
+    # initial last_push: a node traversal starts with the start node itself on the frontier, which no call of next() enqueued: 0, so that
+    # a skip before the first item is a no-op; an edge traversal starts with the edges below the start node, all of them enqueued by new()
+    for e in rets:
+        if e[0] == 'agg' and isinstance(e[1], tuple) and 'last_push' in e[1][3]:
+            lp = e[2][e[1][3].index('last_push')]
+            if edge:
+                frontier = e[2][e[1][3].index('stack')] if 'stack' in e[1][3] else None
+                ok_lp = lp[0] == 'var' or (is_call(lp, 'Vec::len') and frontier is not None and s(lp[2][0]) == s(frontier)) or lp == ('const', 0)
+            else:
+                ok_lp = lp == ('const', 0)
+            (ctx.ok if ok_lp else ctx.bad)('C13.R4', '%s::new#last_push' % ty, 'initial last_push: %s' % ('the edges enqueued by new()' if edge else '0 (the start node was not enqueued by next())') if ok_lp else
+                                            'a fresh traversal starts with last_push = %s: skip_subtree before the first item would drop the start node' % fmt(lp)[:60], b.span)
     for e in rets:
         if e[0] == 'agg' and isinstance(e[1], tuple):
             fields = e[1][3]
@@ -593,6 +605,44 @@ def r6(ctx):
             ctx.ok('C13.R6', site, 'counts %s' % fmt(rets[0][2][0]), b.span)
         else:
             ctx.bad('C13.R6', site, 'does not count %s' % inner, b.span)
+    # depth metrics: every depth value that enters the result is the depth counter the depth-first traversal from the root delivers with a node
+    def traversal_depth(e):
+        """e is (a cast of) the `depth` component of an item of dfs_iter(self) / a DfsPre traversal from the root -> that item"""
+        while e[0] == 'cast' or (is_call(e, 'From::from', 'Into::into') and len(e[2]) == 1):
+            e = e[1] if e[0] == 'cast' else e[2][0]
+        c = prune.dfs_component(e)
+        if c and c[1] == 'depth' and is_call(c[0], 'Iterator::next') and (is_call(c[0][2][0], 'Tree::dfs_iter') and c[0][2][0][2][0] == ('param', 'self')):
+            return c[0]
+        return None
+    b = ctx.body('C13.R6', 'Tree::depth')
+    if b is not None:
+        R = Resolver(b)
+        rets = [prune.beta_map(F, e) for _, e in R.return_expr()]
+        ok = False
+        if len(rets) == 1:
+            e = rets[0]
+            mx = [x for x in walk(e) if is_call(x, 'Iterator::max')]
+            if len(mx) == 1 and is_call(mx[0][2][0], 'Iterator::map') and mx[0][2][0][2][1][0] == 'closure':
+                body = prune.apply_closure(F, mx[0][2][0][2][1], ('call', 'Iterator::next', (mx[0][2][0][2][0],)))
+                ok = body is not None and traversal_depth(body) is not None
+        (ctx.ok if ok else ctx.bad)('C13.R6', 'Tree::depth#values', 'maximum over the depth counters delivered by the depth-first traversal from the root' if ok else
+                                    'depth() is not the maximum of the depths the traversal from the root reports (depths recomputed another way are not decided here)', b.span)
+    b = ctx.body('C13.R6', 'Tree::depth_stats')
+    if b is not None:
+        R = Resolver(b)
+        adds = [(bb, R.call_args(bb)) for bb, t in b.calls() if Callee(t['func']).name == 'add' and Callee(t['func']).trait == 'Estimate']
+        ok = len(adds) >= 3
+        for bb, a in adds:
+            it = traversal_depth(a[1])
+            if it is None:
+                ok = False
+                continue
+            lits = literals(b, R, bb)
+            leaf = any(l[0] == 'true' and any(is_call(x, 'Tree::is_leaf') and x[2][0] == ('param', 'self') and prune.dfs_component(x[2][1]) and prune.dfs_component(x[2][1])[1] == 'index'
+                                              and s(prune.dfs_component(x[2][1])[0]) == s(it) for x in walk(l[1])) for l in lits)
+            ok = ok and leaf
+        (ctx.ok if ok else ctx.bad)('C13.R6', 'Tree::depth_stats#values', 'statistics over the traversal depth of exactly the nodes whose leaf flag is set' if ok else
+                                    'depth_stats does not aggregate the depths the traversal from the root reports for the terminal nodes', b.span)
     b = ctx.body('C13.R6', 'Tree::dfs_iter')
     if b is not None:
         R = Resolver(b)
